@@ -773,3 +773,165 @@ def is_usize_operand(b, o):
     if k in ('int', 'constref'):
         return o.get('ty') == 'usize'
     return False
+
+
+# ======================================================================================= C15-CHUNKCAP
+def _product_with(M, pay):
+    """if M is `a * pay` in some spelling (saturating_mul, wrapping, plain Mul, checked_mul payload): the other factor"""
+    if M is None:
+        return None
+    if M[0] == 'field' and M[2] == 1 and M[3] == 0 and M[1][0] == 'call' and method_of(M[1]) == 'checked_mul':
+        M = M[1]
+    if M[0] == 'call' and method_of(M) in ('saturating_mul', 'checked_mul', 'wrapping_mul', 'mul') and len(M[2]) == 2:
+        a, c = M[2]
+    elif M[0] == 'bin' and M[1] == 'Mul':
+        a, c = M[2], M[3]
+    else:
+        return None
+    if c == pay:
+        return a
+    if a == pay:
+        return c
+    return None
+
+
+def _le_facts(pc):
+    """(M, L) pairs with M <= L known on the path"""
+    outl = []
+    for pt, f in pc:
+        if pt[0] == 'discr' and pt[1][0] == 'call' and method_of(pt[1]) in ('cmp',) and len(pt[1][2]) == 2:
+            M, L = pt[1][2]
+            # Ordering: Less = -1 (255 as u8), Equal = 0, Greater = 1
+            if (f[0] == 'ne' and 1 in tuple(f[1])) or (f[0] == 'eq' and f[1] in (0, -1, 255)):
+                outl.append((M, L))
+            if (f[0] == 'ne' and (-1 in tuple(f[1]) or 255 in tuple(f[1]))) or (f[0] == 'eq' and f[1] in (0, 1)):
+                outl.append((L, M))
+        elif pt[0] == 'bin' and pt[1] in ('Gt', 'Ge', 'Lt', 'Le'):
+            tv = lin.fact_truth(f)
+            if tv is None:
+                continue
+            op, a, c = pt[1], pt[2], pt[3]
+            if (op == 'Gt' and tv is False) or (op == 'Le' and tv is True) or (op == 'Lt' and tv is True):
+                outl.append((a, c))
+            if (op == 'Lt' and tv is False) or (op == 'Ge' and tv is True) or (op == 'Gt' and tv is True):
+                outl.append((c, a))
+    return outl
+
+
+def chunk_cap_failures(ctx, B, name, depth=0, seen=None):
+    """alternatives of the usize / ResolvedChunkSize value returned by `name`, for a source of KNOWN length, that have no
+    upper bound in terms of the data length, the thread budget or a constant.  [(term, why, line)]"""
+    F = ctx.facts
+    seen = seen if seen is not None else set()
+    if name in seen or depth > 4:
+        return []
+    seen.add(name)
+    b = F.bodies[name]
+    lens = [b.local_name(l) for l in b.arg_locals() if b.locals[l]['ty'].replace(' ', '') in ('std::option::Option<usize>', 'Option<usize>')]
+    seeds = {'discr': {t_str(P(nm)): 1 for nm in lens}, 'key': ('known-len', name)} if lens else None
+    r = ctx.opa0.run(name, seeds=seeds) if seeds else ctx.run0(name)
+    edges = [(term, pc) for (_, _), (term, pc) in r.ret_edges.items()] or [(term, pc) for (_, term, pc) in r.returns]
+    # match arms are joined before the return block, which loses the facts of each arm: for a small loop-free body every
+    # path is analysed on its own (the analysis is restricted to the blocks of the path), so each value keeps its guards
+    cfg = ctx.cfg(b)
+    if not cfg.loops():
+        paths = []
+
+        def walk(bb, acc):
+            if len(paths) > 96 or bb not in r.visited:
+                return
+            acc = acc + [bb]
+            succs = [s_ for s_ in cfg.succ[bb] if not b.blocks[s_].get('cleanup')]
+            if b.blocks[bb]['term']['t'] == 'return' or not succs:
+                paths.append(acc)
+                return
+            for s_ in succs:
+                walk(s_, acc)
+        walk(0, [])
+        if 0 < len(paths) <= 96:
+            edges = []
+            allb = set(b.blocks)
+            for pth in paths:
+                sd = dict(seeds or {})
+                sd['key'] = ('known-len-path', name, tuple(pth))
+                rr = ctx.opa0.run(name, seeds=sd, avoid=allb - set(pth))
+                for (_, _), (term, pc) in rr.ret_edges.items():
+                    edges.append((term, pc))
+                if not rr.ret_edges:
+                    edges.extend((term, pc) for (_, term, pc) in rr.returns)
+    fails = []
+
+    def check(pay, pc):
+        if pay is None:
+            return
+        if pay[0] == 'set':
+            for x in pay[1]:
+                check(x, pc)
+            return
+        if pay[0] == 'variant' and pay[1] == RESOLVED and len(pay[3]) == 1:
+            return check(pay[3][0], pc)
+        if pay[0] == 'call' and pay[1] in F.bodies and not F.bodies[pay[1]].is_closure():
+            cb = F.bodies[pay[1]]
+            if method_of(pay) == 'validate' and pay[2]:
+                vr = ctx.run0(pay[1])
+                if vr.ret == P('self'):
+                    return check(pay[2][0], pc)
+            if cb.d.get('ret_ty') in ('usize',) or RESOLVED in cb.d.get('ret_ty', ''):
+                sub = chunk_cap_failures(ctx, B, pay[1], depth + 1, seen)
+                if not sub:
+                    return
+                fails.extend(sub)
+                return
+        if pay[0] == 'phi':
+            if B.ub(pay, b, r) is not None:
+                return
+        elif B.ub(pay, b, r) is not None:
+            return
+        for (M, L) in _le_facts(pc):
+            if M == pay and B.ub(L, b, r) is not None:
+                return
+            a = _product_with(M, pay)
+            if a is not None and B.lb1(a, b, r, pc) and B.ub(L, b, r) is not None:
+                return
+        fails.append((pay, 'in %s' % key_of(b), None))
+
+    for term, pc in edges:
+        check(term, pc)
+    return fails
+
+
+@rule('C15-CHUNKCAP', 'for a source of known length every resolved chunk size is bounded by the input length, the thread budget or a constant')
+def c15_chunkcap(ctx):
+    out = RuleOut('C15-CHUNKCAP')
+    F = ctx.facts
+    B = Bounds(ctx)
+    B.strict = True
+    prove_invariants(ctx)
+    new = F.one('core::runner::Runner::new')
+    r = ctx.run0(new.name)
+    ci = F.field_index(RUNNER, 'chunk_size')
+    rets = [a for a in alternatives(r.ret) if a[0] == 'variant' and a[1] == RUNNER]
+    n = 0
+    for ret in rets:
+        ct = ret[3][ci]
+        key = 'C15-CHUNKCAP/' + key_of(new)
+        if not (ct[0] == 'call' and ct[1] in F.bodies):
+            out.inst(key, False, t_str(ct)[:100])
+            out.fail(key, 'Runner::new: the chunk size %s is not computed by a resolution function: cannot bound it' % t_str(ct)[:100], new.where(), kind='undecided')
+            continue
+        n += 1
+        fails = chunk_cap_failures(ctx, B, ct[1])
+        out.inst(key, not fails, 'resolution %s: %d unbounded alternative(s)' % (strip_generics(ct[1]), len(fails)),
+                 sample={'resolution_fn': strip_generics(ct[1]), 'unbounded': [t_str(x[0])[:80] for x in fails]})
+        seen = set()
+        for (pay, where_, _) in fails:
+            if pay in seen:
+                continue
+            seen.add(pay)
+            out.fail('C15-CHUNKCAP/%s/%s' % (strip_generics(ct[1]), t_str(pay)[:60]),
+                     'for a source of known length the resolved chunk size can be %s (%s), which neither the input length nor the thread budget bounds: '
+                     'the position counter of the concurrent iterator advances by the chunk size on every pull and wraps around for chunk sizes near '
+                     'usize::MAX / threads - elements are then delivered more than once (wrong results) or the addition overflows (panic)'
+                     % (t_str(pay)[:100], where_), F.bodies[ct[1]].where())
+    out.floor('resolutions', n, 1 if not ctx.fixture else 0)
+    return out
